@@ -402,6 +402,25 @@ def parse_callee(text):
     return ci
 
 
+def subst_generics(text, env):
+    for k, v in env.items():
+        text = re.sub(r'(?<![\w:])%s(?![\w])' % re.escape(k), v, text)
+    return text
+
+
+def type_generic_args(ci):
+    """generic arguments written on the self type of a call: `Template::<u32>::render` / `<Template<u32> as Tr>::m`"""
+    if ci.kind == 'qualified':
+        return [a.strip() for a in generic_args(ci.selfty_full)]
+    segs = ci.path
+    for k, sg in enumerate(segs):
+        if strip_generics(sg) == ci.selfty and k + 1 < len(segs) and segs[k + 1].startswith('<') and not segs[k + 1].startswith('<impl'):
+            return [a.strip() for a in split_top(segs[k + 1][1:-1])]
+        if sg.startswith(ci.selfty + '<'):
+            return [a.strip() for a in generic_args(sg)]
+    return []
+
+
 def match_angle(s, i):
     d = 0
     k = i
@@ -461,6 +480,7 @@ class Interp:
         self.const_cache = {}
         self.trace = False
         self.max_steps = 5_000_000
+        self.genv = [None]         # stack of {generic param name -> concrete type text} for generic impl bodies
 
     # ------------------------------------------------------------------ places
     def place_ptr(self, frame, p):
@@ -758,13 +778,36 @@ class Interp:
         """callee: text of the callee path"""
         if callee.startswith(('move ', 'copy ')):
             raise Unsupported('indirect call text')
+        env = self.genv[-1]
+        if env:
+            callee = subst_generics(callee, env)
         ci = parse_callee(callee)
         if ci.trait is None and ci.key in OVERRIDES:
             # functions of the crate whose body only forwards to a library without MIR (documented model boundary)
             return OVERRIDES[ci.key](self, ci, *args)
         fn = self.prog.resolve(ci)
         if fn is not None:
-            return self.run(fn, args)
+            names = self.prog.impl_generic_names(fn.name)
+            sub = None
+            if names:
+                targs = type_generic_args(ci)
+                if targs and len(targs) == len(names) and not all(a == n for a, n in zip(targs, names)):
+                    sub = dict(zip(names, targs))
+                elif env:
+                    sub = {n: env[n] for n in names if n in env} or None
+            # method-level type parameters written with a turbofish at the call site
+            last = ci.path[-1] if ci.path else ''
+            if last.startswith('<') and not last.startswith('<impl'):
+                mnames = self.prog.method_generic_names(ci.method)
+                margs = [a.strip() for a in split_top(last[1:-1])]
+                if mnames and len(mnames) == len(margs) and not all(a == n for a, n in zip(margs, mnames)):
+                    sub = dict(sub or {})
+                    sub.update(zip(mnames, margs))
+            self.genv.append(sub)
+            try:
+                return self.run(fn, args)
+            finally:
+                self.genv.pop()
         model = self.models.lookup(self, ci, args)
         if model is not None:
             st = self.world.stats.models
